@@ -65,7 +65,7 @@ def first_union_ctx(tv: TV) -> str:
     return "-"
 
 
-def body(sub, root: tuple, tv: TV) -> List[Tuple[str, str, str, str]]:
+def body(sub, root: tuple, tv: TV, extra=None) -> List[Tuple[str, str, str, str]]:
     j = erase(tv)
     T = sub.root_type(root)
     rname = valuecheck.root_name(root)
